@@ -6,7 +6,7 @@
 From Coq Require Import Arith.
 From JT.Base Require Import Prelude GoSlice.
 From JT.Model Require Import Frame.
-From JT.Model Require Unpack Subpkg Mem.
+From JT.Model Require Unpack Subpkg Mem Reply.
 
 (* what a holder of a delivered message reads in heap h, as a value-level delivered message:
    TerminalData, the JTMessage (header values, Body as it reads now), SubcontractComplete *)
@@ -50,4 +50,13 @@ Fixpoint run_mem (bufsz : nat) (st : Mem.pst) (reads : list (list N * bool * nat
   | (d, force, newcap) :: t =>
     let o := Mem.step Mem.cur bufsz st (Mem.Read d force newcap) in
     (map (pmsg_of (Mem.p_heap (Mem.o_st o))) (Mem.o_msgs o), Mem.o_err o) :: run_mem bufsz (Mem.o_st o) t
+  end.
+
+(* the reply frame the writer computes for a delivered message when it reads it in heap h:
+   ReplyBody of its handler kind on the JTMessage as it reads then (header values, Body through the
+   slice), encoded with Header.Encode (BCD phone through the slice); None when ReplyBody fails *)
+Definition reply_frame_at (h : heap) (m : Mem.dmsg) (k : Reply.rkind) (s : Reply.hstate) (rid ps : N) : option (list N) :=
+  match snd (Reply.reply_body k s (Subpkg.set_body (Mem.d_hdr m) (deref h (Mem.d_body m)))) with
+  | Some b => Some (encode (Mem.with_bcd (Mem.d_hdr m) (deref h (Mem.d_bcd m))) rid ps b)
+  | None => None
   end.
